@@ -375,7 +375,7 @@ fn check_all(l: &mut Local, s: &str, class: &str) {
 }
 
 pub fn run(col: &Collector, thorough: bool, seed: u64, jobs: usize) -> Value {
-    let max_len = if thorough { 7 } else { 6 };
+    let max_len = crate::max_len_override().unwrap_or(if thorough { 7 } else { 6 });
     let k = ALPHABET.len();
     vutil::run_workers(jobs, col, |w, n| {
         let mut l = Local::new();
@@ -395,7 +395,7 @@ pub fn run(col: &Collector, thorough: bool, seed: u64, jobs: usize) -> Value {
         }
         // many-line inputs: more than five lines (elision) and more than nine (two-digit numbers)
         let mut rng = Rng::new(seed).derive(w as u64 + 7);
-        let many = if thorough { 400 } else { 60 };
+        let many = if crate::max_len_override().is_some() { 2 } else if thorough { 400 } else { 60 };
         let mut t = w;
         while t < many {
             let nlines = [6, 7, 8, 10, 11, 12, 13][rng.below(7)];
